@@ -1,4 +1,8 @@
 import AslModel.Lemmas.Data
+import AslModel.Lemmas.DataIntel
+import AslModel.Lemmas.DataMoto
+import AslModel.Lemmas.DataMotoDC
+import AslModel.Lemmas.DataRun
 /-!
 # C09 — data-definition statements lay down exactly the documented bytes
 
@@ -9,9 +13,18 @@ Property theorems only (helper lemmas: `Lemmas/Data.lean`).  Model: `Model/Data.
 Integer theorems quantify over *every* value the 64-bit expression evaluator can deliver
 (`-2^63 ≤ v < 2^63`; for 64-bit fields up to `2^64-1`): the statement is accepted iff the value
 is in the manual's range `-2^(w-1) ≤ v < 2^w` and then lays exactly the two's-complement bytes in
-the target's byte order.  What is *not* a theorem (only tested by the correspondence): statements
-with several arguments of mixed kinds, strings, single/double/extended float forms, the error
-paths of DUP trees.  Known defects of the code have proved negations at the end.
+the target's byte order.  `C09_intel_tree` is the whole-statement theorem of DB/DW/DD/DQ: every argument
+tree of integers, strings, `?` and nested `n DUP (...)` (any counts, any nesting, mixed kinds, including
+the error paths: range errors anywhere in the tree, constants mixed with `?`) is laid exactly as
+`specArgs` says.  What is *not* a theorem (only tested by the correspondence): float arguments inside
+statements (single/double/extended forms; the conversions themselves: `Props/C09_Floats.lean`).
+`C09_moto8_stmt` is the whole-statement theorem of BYT/FCB and ADR/FDB on byte-listing targets and
+`C09_motoDC_stmt` the one of DC.B/W/L/Q for both listing granularities (any list of integers, strings
+and `?`, each with an optional `[n]`, with the PADDING byte emitted or reserved as the first argument
+demands).  `C09_slot` composes them: a list of such statements laid one after the other from any address
+gives the cells and the end address the specification gives (what mode `c09` compares per run).  Still
+compared only: FCC (its repetition: `C09_ext_fcc_rep`), DFS/RMB and DS counts outside their integer type, float arguments.  Known
+defects of the code have proved negations at the end.
 -/
 namespace AslModel.C09
 open AslModel.PFile AslModel.Data AslModel.DataModel AslModel.DataLemmas
@@ -59,6 +72,70 @@ theorem C09_int_moto8 (c : MCfg) (hlg : c.lg = 1) (wide : Bool) (v : Int)
       (encInt (if wide then 16 else 8) c.mturn v).map fun bs => ⟨none, .data bs, []⟩ :=
   int_moto8 c hlg wide v hv
 
+/-- **DC.B/W/L/Q, the whole statement** (68000: word listing + TurnWords; 6809/68HC12: byte listing): for EVERY argument
+list of integers (values the 64-bit evaluator can deliver, up to `2^64-1` for DC.Q), strings and `?`, each optionally
+repeated `[n]` with `n ≥ 0` (`dcOKs`, `Model/Data.lean`), and every address: the transcription of `DecodeMotoDC`
+(`CutRep`, `EnterByte/Word/LWord/QWord` into the shared buffer, `WriteBytes` with `DreheCodes`) lays exactly the big-endian
+bytes the specification composes from the arguments, is in error exactly when the specification is, and the pad byte
+PADDING asks for is *emitted* in front of constants and *reserved* in front of a reservation (`padOfD`). -/
+theorem C09_motoDC_stmt (c : MCfg) (hc : (c.lg = 1 ∧ c.turnWords = false) ∨ (c.lg = 2 ∧ c.turnWords = true))
+    (n : Nat) (hn : n = 1 ∨ n = 2 ∨ n = 4 ∨ n = 8) (fk : Option FKind) (pc : Nat) (as : Args) (hok : dcOKs n as = true) :
+    decodeMotoDC c pc ⟨n, true, fk⟩ as =
+      (specArgs ⟨n, true, fk⟩ true as).map fun o =>
+        ⟨padOfD (pc % 2 == 1 && c.padding && decide (n ≠ 1)) o, Out.norm o, []⟩ :=
+  dc_stmt c hc n hn fk pc as hok
+
+/-- `dc.b 1,"ab",[3]-1,2` on the 68000 (bytes share words of the buffer, `DreheCodes` puts them in order); `dc.w [2]"a",-2`
+at an odd address with PADDING; `dc.l [2]?,?` there: the pad byte is reserved -/
+example : dcOKs 1 (.cons (.int 1) (.cons (.str [0x61, 0x62]) (.cons (.rep 3 (.int (-1))) (.cons (.int 2) .nil)))) = true := by decide
+example : decodeMotoDC ⟨2, true, true, false, true, false, false⟩ 0 ⟨1, true, none⟩
+    (.cons (.int 1) (.cons (.str [0x61, 0x62]) (.cons (.rep 3 (.int (-1))) (.cons (.int 2) .nil))))
+    = some ⟨none, .data [1, 0x61, 0x62, 0xff, 0xff, 0xff, 2], []⟩ := by decide
+example : decodeMotoDC ⟨2, true, true, false, true, false, false⟩ 3 ⟨2, true, none⟩
+    (.cons (.rep 2 (.str [0x61])) (.cons (.int (-2)) .nil)) = some ⟨some false, .data [0, 0x61, 0, 0x61, 0xff, 0xfe], []⟩ := by decide
+example : decodeMotoDC ⟨2, true, true, false, true, false, false⟩ 3 ⟨4, true, some .single⟩
+    (.cons (.rep 2 .q) (.cons .q .nil)) = some ⟨some true, .space 12, []⟩ := by decide
+
+/-- **BYT/FCB, ADR/FDB, the whole statement** (byte-listing targets; 6502: low byte first, 68xx: high byte first): for
+EVERY argument list of integers (values the 64-bit evaluator can deliver), strings and `?`, each optionally repeated
+`[n]` with `n ≥ 0` (`moto8OKs`, `Model/Data.lean`), the transcription of `DecodeMotoBYT` / `DecodeMotoADR` lays
+exactly what the specification composes from the arguments, and is in error exactly when the specification is (an
+integer out of range, constants mixed with `?`). -/
+theorem C09_moto8_stmt (c : MCfg) (hlg : c.lg = 1) (wide : Bool) (as : Args) (hok : moto8OKs as = true) :
+    decodeMoto8 c wide false as = (specArgs (elem8 wide) c.mturn as).map fun o => ⟨none, Out.norm o, []⟩ :=
+  moto8_stmt c hlg wide as hok
+
+/-- `fdb 1,[2]"ab",-2` on a 68xx target; `fcb [2]?,?`; the error `fcb 1,?` -/
+example : moto8OKs (.cons (.int 1) (.cons (.rep 2 (.str [0x61, 0x62])) (.cons (.int (-2)) .nil))) = true := by decide
+example : decodeMoto8 ⟨1, false, true, false, false, false, false⟩ true false
+    (.cons (.int 1) (.cons (.rep 2 (.str [0x61, 0x62])) (.cons (.int (-2)) .nil)))
+    = some ⟨none, .data [0, 1, 0, 0x61, 0, 0x62, 0, 0x61, 0, 0x62, 0xff, 0xfe], []⟩ := by decide
+example : decodeMoto8 ⟨1, false, false, false, false, false, false⟩ false false (.cons (.rep 2 .q) (.cons .q .nil))
+    = some ⟨none, .space 3, []⟩ := by decide
+example : moto8OKs (.cons (.int 1) (.cons .q .nil)) = true ∧
+    decodeMoto8 ⟨1, false, false, false, false, false, false⟩ false false (.cons (.int 1) (.cons .q .nil)) = none ∧
+    specArgs elemByte false (.cons (.int 1) (.cons .q .nil)) = none := by decide
+
+/-- **A slot of statements** (DC.B/W/L/Q, BYT/FCB, ADR/FDB, DB/DW/DD/DQ over the argument forms of the three
+whole-statement theorems, DFS/RMB with a count 0…65535, DS with a count 0…2^32-1; `slotStmtOK c sc`, `Model/Data.lean` — the driver reports for every case whether it holds — also asks that the specification's configuration
+`sc` describes the target `c`: byte order of the statement family, PADDING): laid one after the other from ANY
+address, the transcription produces exactly the (address, byte) cells and the end address of the specification — pad
+bytes included (emitted as a zero cell in front of constants, skipped in front of reservations), no byte read from
+uninitialised memory — and is in error exactly when the specification is. -/
+theorem C09_slot (c : MCfg) (sc : SCfg) (stmts : List Stmt) (h : ∀ st ∈ stmts, slotStmtOK c sc st = true) (pc : Nat) :
+    modelRun c pc stmts = (specRun sc pc stmts).map fun r => (r.1, r.2, []) :=
+  slot_run c sc stmts h pc
+
+/-- 68000 with PADDING from an odd address: `dc.b 1` / `dc.w 2,[2]"a"` / `dc.l [2]?` / `dc.b "xy"` -/
+example : ∀ st ∈ [Stmt.dc ⟨1, true, none⟩ (.cons (.int 1) .nil),
+      .dc ⟨2, true, none⟩ (.cons (.int 2) (.cons (.rep 2 (.str [0x61])) .nil)),
+      .dc ⟨4, true, some .single⟩ (.cons (.rep 2 .q) .nil), .dc ⟨1, true, none⟩ (.cons (.str [0x78, 0x79]) .nil)],
+    slotStmtOK ⟨2, true, true, false, true, false, false⟩ ⟨true, true⟩ st = true := by decide
+example : modelRun ⟨2, true, true, false, true, false, false⟩ 2
+      [.dc ⟨1, true, none⟩ (.cons (.int 1) .nil), .dc ⟨2, true, none⟩ (.cons (.int 2) (.cons (.rep 2 (.str [0x61])) .nil)),
+       .dc ⟨4, true, some .single⟩ (.cons (.rep 2 .q) .nil), .dc ⟨1, true, none⟩ (.cons (.str [0x78, 0x79]) .nil)] =
+    some ([(2, 1), (3, 0), (4, 0), (5, 2), (6, 0), (7, 0x61), (8, 0), (9, 0x61), (18, 0x78), (19, 0x79)], 20, []) := by decide
+
 /-- Every integer `Enter*` helper followed by `WriteBytes` yields the big-endian image of its
 argument for both listing granularities (no hypothesis on the value). -/
 theorem C09_enter_bytes (c : MCfg) (hc : (c.lg = 1 ∧ c.turnWords = false) ∨ (c.lg = 2 ∧ c.turnWords = true))
@@ -90,6 +167,31 @@ theorem C09_dup (c : MCfg) (e : Elem) (n : Int) (as : Args) (st st' : ISt) (body
 example : decodeIntelDx ⟨1, false, false, false, false, false, false⟩ ⟨1, true, none⟩
     (.cons (.dup 2 (.cons (.int 1) (.cons (.dup 2 (.cons (.int 3) (.cons (.int 4) .nil))) .nil))) .nil)
     = some ⟨none, .data [1, 3, 4, 3, 4, 1, 3, 4, 3, 4], []⟩ := by decide
+
+/-- **DB/DW/DD/DQ, the whole statement** (byte-granular segments, little- or big-endian): for EVERY argument tree built
+from integers (values the 64-bit evaluator can deliver), strings, `?` and `n DUP (...)` groups of such, nested to any
+depth with any counts (`intelOKs`, `Model/Data.lean`; it only excludes float arguments and the Motorola `[n]`
+form), the transcription of `DecodeIntelPseudo_LayoutMult` with `SetDSFlag`, the `Layout*` functions and
+`Replicate8ToN_To_8` lays exactly what the specification composes from the arguments (`Out.add`, `Out.times`), and is
+in error exactly when the specification is: an integer out of range anywhere in the tree, constants mixed with `?`.
+`Out.norm`: a statement that lays nothing (`db ""`, `db 0 dup (1)`) is reported as `empty`. -/
+theorem C09_intel_tree (c : MCfg) (n : Nat) (hn : n = 1 ∨ n = 2 ∨ n = 4 ∨ n = 8) (fk : Option FKind) (as : Args)
+    (hok : intelOKs n as = true) :
+    decodeIntelDx c ⟨n, true, fk⟩ as = (specArgs ⟨n, true, fk⟩ c.ibig as).map fun o => ⟨none, Out.norm o, []⟩ :=
+  intel_tree c n hn fk as hok
+
+/-- `dw 2 dup (1, 3 dup ("ab", -1)), 300` and `db 2 dup (?, 3 dup (?)), ?` and the error `db 2 dup (1, ?)` -/
+example : intelOKs 2 (.cons (.dup 2 (.cons (.int 1) (.cons (.dup 3 (.cons (.str [0x61, 0x62]) (.cons (.int (-1)) .nil))) .nil)))
+    (.cons (.int 300) .nil)) = true := by decide
+example : decodeIntelDx ⟨1, false, false, true, false, false, false⟩ ⟨2, true, none⟩
+    (.cons (.dup 2 (.cons (.int 1) (.cons (.dup 2 (.cons (.str [0x61]) (.cons (.int (-1)) .nil))) .nil))) (.cons (.int 300) .nil))
+    = some ⟨none, .data [0, 1, 0, 0x61, 0xff, 0xff, 0, 0x61, 0xff, 0xff, 0, 1, 0, 0x61, 0xff, 0xff, 0, 0x61, 0xff, 0xff, 1, 0x2c], []⟩ := by
+  decide
+example : decodeIntelDx ⟨1, false, false, false, false, false, false⟩ ⟨1, true, none⟩
+    (.cons (.dup 2 (.cons .q (.cons (.dup 3 (.cons .q .nil)) .nil))) (.cons .q .nil)) = some ⟨none, .space 9, []⟩ := by decide
+example : intelOKs 1 (.cons (.dup 2 (.cons (.int 1) (.cons .q .nil))) .nil) = true ∧
+    decodeIntelDx ⟨1, false, false, false, false, false, false⟩ ⟨1, true, none⟩ (.cons (.dup 2 (.cons (.int 1) (.cons .q .nil))) .nil) = none ∧
+    specArgs ⟨1, true, none⟩ false (.cons (.dup 2 (.cons (.int 1) (.cons .q .nil))) .nil) = none := by decide
 
 /-- **Reservation**: `n DUP (?)`-style bodies emit nothing and advance by `n` times the body's
 advance; `[n]?` in DC.x reserves `n` elements after a *reserved* pad byte. -/
